@@ -34,6 +34,7 @@ RULE = ('case = one template description (gen/templates.py) with a `where` '
         'is snapshotted (JSON, format, own canonical form) around every call. '
         'Non-trivial = at least 2 members and (a conditional candidate, a '
         'multi-choice, a filter or a typed field); distinct by template text.')
+LEVEL = 'exploration'
 REQUIRED_COUNTERS = ['spec_checks', 'decode_checks', 'reference_compared',
                      'placeholder_checks', 'field_rule_checks',
                      'decode_twice_checks', 'independence_checks',
@@ -443,7 +444,9 @@ def check_dna(ctx, cs, m, j):
       if not check_snapshot(ctx, cs, 'encode'):
         return False
       if cs.dist:
-        ctx.violation('encode-raised', 'encode:' + cs.feature(),
+        feat = cs.feature()
+        ctx.violation('encode-not-inverse', 'encode:' + (
+            feat if feat == 'where-in-candidate' else 'raised:' + feat),
                       f'encode(decode({dna!r})) raised:\n{tb(ex)}', cs.record)
       else:
         c['encode_raised_indistinguishable'] += 1
@@ -469,11 +472,15 @@ def check_dna(ctx, cs, m, j):
                 '/conditional' if any(t[0] == 'c' for t in pt.path) else '')
       except Exception:  # pylint: disable=broad-except
         pass
-      ctx.violation('encode-differs', 'encode:' + mech,
+      if cs.feature() == 'where-in-candidate':
+        mech = 'where-in-candidate'
+      else:
+        mech = 'differs:' + mech
+      ctx.violation('encode-not-inverse', 'encode:' + mech,
                     f'encode(decode({dna!r})) = {e!r} (decisions {nums!r}, expected '
                     f'{list(m)!r}); value {pg.format(d1, compact=True)[:500]}', cs.record)
     elif not (e == dna):
-      ctx.violation('encode-differs', 'encode:DNA.__eq__',
+      ctx.violation('encode-not-inverse', 'encode:DNA.__eq__',
                     f'{e!r} has the shape of {dna!r} but is not == to it', cs.record)
   # -- pg.materialize with the DNA and with a parameter dict
   if j >= 2:
